@@ -665,6 +665,22 @@ func (w *world) commitPending(end int) {
 	w.pending = nil
 }
 
+// errText is err's text without the run's scratch directory and the random
+// names of temporary files (traces are compared between processes).
+func (w *world) errText(err error) (text string) {
+	if err == nil {
+		return "<nil>"
+	}
+	text = strings.ReplaceAll(err.Error(), filepath.Dir(w.dir), "<scratch>")
+	if i := strings.Index(text, "cache.pb"); i >= 0 {
+		if j := strings.IndexAny(text[i:], ": "); j > len("cache.pb") {
+			text = text[:i+len("cache.pb")] + "<tmp>" + text[i+j:]
+		}
+	}
+
+	return text
+}
+
 func (w *world) stamp() int {
 	w.tick++
 
@@ -1103,7 +1119,7 @@ func run(s *kernel.Sim, _, cfg string) {
 			if w.overlap {
 				w.commitPending(end)
 				w.storing = nil
-				s.Logf("syncer: refresh#%d ends@%d err=%v", i, end, rerr)
+				s.Logf("syncer: refresh#%d ends@%d err=%v", i, end, w.errText(rerr))
 
 				continue
 			}
@@ -1124,7 +1140,7 @@ func run(s *kernel.Sim, _, cfg string) {
 			}
 			w.storing = nil
 			w.refreshStart = 0
-			s.Logf("syncer: refresh#%d ends@%d err=%v stored=%v", i, end, rerr, stored)
+			s.Logf("syncer: refresh#%d ends@%d err=%v stored=%v", i, end, w.errText(rerr), stored)
 
 			if stored {
 				s.Probe("cache-stored")
@@ -1146,7 +1162,7 @@ func run(s *kernel.Sim, _, cfg string) {
 				rerr := w.db.Refresh(context.Background())
 				end := w.stamp()
 				w.commitPending(end)
-				s.Logf("refresher2: refresh [%d,%d] err=%v", begin, end, rerr)
+				s.Logf("refresher2: refresh [%d,%d] err=%v", begin, end, w.errText(rerr))
 				s.Probe("second-refresher-call")
 			}
 		})
